@@ -347,10 +347,15 @@ def sem_of(sem, u):
     return Sem(scale, dims)
 
 
-def dims_close(a, b, tol=2e-6):
-    """exponent dicts equal up to the 6 significant digits pint prints for non-integer exponents"""
+def dims_close(a, b, tol=6e-6):
+    """exponent dicts equal up to the 6 significant digits pint prints for non-integer exponents (1.296875 is shown as
+    1.29688: relative error up to 5e-6)"""
     keys = set(a) | set(b)
-    return all(abs(float(a.get(k, 0)) - float(b.get(k, 0))) <= tol * max(1.0, abs(float(a.get(k, 0)))) for k in keys)
+    for k in keys:
+        x, y = float(a.get(k, 0)), float(b.get(k, 0))
+        if abs(x - y) > tol * max(abs(x), abs(y)):
+            return False
+    return True
 
 
 def physical_dims(d):
